@@ -140,6 +140,11 @@ def wrapper_entries():
     out.append(Entry('ElementVector(Quad2,3)', lambda: E.ElementVector(E.ElementQuad2(), 3), 'H1', False, False, 0, 'quad', 'vector'))
     out.append(Entry('ElementVector(TetCCR,2)', lambda: E.ElementVector(E.ElementTetCCR(), 2), 'H1', False, False, 0, 'tet', 'vector'))
     out.append(Entry('ElementVector(Hex2,2)', lambda: E.ElementVector(E.ElementHex2(), 2), 'H1', False, False, 0, 'hex', 'vector'))
+    # rank-2 tensor-valued (non-symmetric) elements
+    out.append(Entry('ElementVector(Vector(TriP1))', lambda: E.ElementVector(E.ElementVector(E.ElementTriP1())), 'H1', False, False, 0,
+                     'tri', 'vector'))
+    out.append(Entry('ElementVector(Vector(TetP1))', lambda: E.ElementVector(E.ElementVector(E.ElementTetP1())), 'H1', False, False, 0,
+                     'tet', 'vector'))
     # inner elements with more than one DOF on an entity kind (strided vs contiguous component numbering)
     out.append(Entry('ElementVector(TriP3)', lambda: E.ElementVector(E.ElementTriP3()), 'H1', False, False, 0, 'tri', 'vector'))
     out.append(Entry('ElementVector(LinePp(3))', lambda: E.ElementVector(E.ElementLinePp(3)), 'H1', False, False, 0, 'line', 'vector'))
